@@ -92,11 +92,11 @@ var fmtKinds = map[string]fmtKind{
 
 type fmtStats struct {
 	docs, skipped, compared, outOfDomain, rtOK, rtCases int
-	rt                                                map[string]int
+	rt, rtTame                                        map[string]int
 }
 
 // runFormatBatch runs the correspondence and the direct checks for one batch of source texts.
-func (c *Ctx) runFormatBatch(k fmtKind, inputs []string, st *fmtStats) {
+func (c *Ctx) runFormatBatch(k fmtKind, inputs []string, st *fmtStats, tame ...bool) {
 	cfgs := strings.Split(k.cfgs, ";")
 	hexes := make([]string, len(inputs))
 	var wreq []string
@@ -200,6 +200,10 @@ func (c *Ctx) runFormatBatch(k fmtKind, inputs []string, st *fmtStats) {
 				what = fmt.Sprintf("input %q cfg %s: %s", in, cfg, r)
 			}
 			st.rt[sig]++
+			if i < len(tame) && tame[i] {
+				st.rtTame[sig]++
+				sig += "+tame"
+			}
 			c.fmtKeepSmallest(sig, what, in, replay(map[string]any{"cfg": cfg, "outcome": r}))
 		}
 	}
@@ -334,7 +338,7 @@ func checkXFormat(c *Ctx) {
 	// 2. documents
 	stats := map[string]*fmtStats{}
 	for t := range fmtKinds {
-		stats[t] = &fmtStats{rt: map[string]int{}}
+		stats[t] = &fmtStats{rt: map[string]int{}, rtTame: map[string]int{}}
 	}
 	qs, ss := RepoGraphQLInputs()
 	c.runFormatBatch(fmtKinds["q"], qs, stats["q"])
@@ -352,15 +356,20 @@ func checkXFormat(c *Ctx) {
 	batch := 6000
 	for done := 0; done < total; done += batch {
 		var q, sd, s []string
+		var tame []bool
 		for i := 0; i < batch/3; i++ {
 			r := c.R.Fork(uint64(done + i))
-			q = append(q, GenQueryText(r, i%5 == 0, i%3 == 0))
-			sd = append(sd, GenSchemaDocText(r, i%5 == 0, i%3 == 0))
-			s = append(s, GenLoadableSchemaText(r, i%3 == 0))
+			// every other document avoids the triggers of the known deviations, so that whatever
+			// still fails there is something else
+			t := i%2 == 1
+			tame = append(tame, t)
+			q = append(q, GenQueryText(r, i%5 == 0, i%3 == 0, t))
+			sd = append(sd, GenSchemaDocText(r, i%5 == 0, i%3 == 0, t))
+			s = append(s, GenLoadableSchemaText(r, i%3 == 0, t))
 		}
-		c.runFormatBatch(fmtKinds["q"], q, stats["q"])
-		c.runFormatBatch(fmtKinds["sd"], sd, stats["sd"])
-		c.runFormatBatch(fmtKinds["s"], s, stats["s"])
+		c.runFormatBatch(fmtKinds["q"], q, stats["q"], tame...)
+		c.runFormatBatch(fmtKinds["sd"], sd, stats["sd"], tame...)
+		c.runFormatBatch(fmtKinds["s"], s, stats["s"], tame...)
 	}
 
 	// report the direct-check findings (shortest input per signature), in a stable order
@@ -376,7 +385,7 @@ func checkXFormat(c *Ctx) {
 	for t, st := range stats {
 		c.Ev.Extra["format_"+t] = map[string]any{"documents": st.docs, "skipped_not_parsing_or_loading": st.skipped,
 			"configs_compared_equal": st.compared, "out_of_isprint_domain": st.outOfDomain, "roundtrip_cases": st.rtCases,
-			"roundtrip_ok": st.rtOK, "roundtrip_findings": st.rt}
+			"roundtrip_ok": st.rtOK, "roundtrip_findings": st.rt, "roundtrip_findings_in_tame_documents": st.rtTame}
 		fmt.Printf("format %-2s: documents=%d skipped=%d model-equal(config cases)=%d out-of-domain=%d roundtrip ok=%d/%d\n",
 			t, st.docs, st.skipped, st.compared, st.outOfDomain, st.rtOK, st.rtCases)
 		keys := make([]string, 0, len(st.rt))
@@ -385,7 +394,7 @@ func checkXFormat(c *Ctx) {
 		}
 		sort.Strings(keys)
 		for _, k := range keys {
-			fmt.Printf("    %-70s %d\n", k, st.rt[k])
+			fmt.Printf("    %-70s %d (in tame documents: %d)\n", k, st.rt[k], st.rtTame[k])
 		}
 	}
 	c.Ev.Extra["corpus_documents"] = corpus
@@ -422,6 +431,8 @@ var fmtMinimalSD = []string{
 	`"d1" schema { query: Q } "d2" schema { mutation: M }`, // descriptions concatenated
 	`type T { f(a: Int = "\u0007"): Int }`,                // R12a in a schema
 	`directive @d("x" a: Int "y" b: Int) on FIELD`,
+	`type T { f("d" a: Int b: Int): Int }`,                // with omitDescription the comma after a described argument is dropped: not a fixpoint
+	`type T { __a: Int }`,                                 // R13d, all fields dropped: `type T {` `}` does not parse
 	`extend schema @a`, `extend schema { query: Q }`, `type T`, `type T implements A & B @d { f: Int }`,
 }
 
@@ -431,6 +442,8 @@ var fmtMinimalS = []string{
 	`"""d""" schema { query: Q } type Q { f: Int }`,                                     // R13e
 	`"""d""" schema { query: Query } type Query { f: Int }`,                             // R13e (no block printed at all)
 	`type Query { f: Int }`,
+	`schema { query: Query mutation: M } type Query { f: Int } type M { g: Int }`,         // block printed without `query: Query`: the reloaded schema has no query root
+	`schema { query: Query subscription: S } type Query { f: Int } type S { g: Int } type Mutation { h: Int }`,
 	`"a \"\"\" b" type Query { f: Int }`,                                               // R13a
 	`"  lead\n" type Query { f: Int }`,                                                   // R13b
 	`directive @d(s: String = "\u0007") on OBJECT type Query @d { f: Int }`,              // R12a
